@@ -75,6 +75,28 @@ class C04(Prop):
                 })
             return obs
 
+    # ---- spec -> code: every small multiset of intervals through the real merge_kernel_intervals
+    def extra(self, ctx):
+        import pandas as pd
+        from .. import tlc
+        hta.setup()
+        from hta.utils.utils import merge_kernel_intervals
+        cases, _ = tlc.enumerate_cases("MC_MergeEmit", "MC_MergeEmit.cfg")
+        drift = []
+        for c in cases:
+            df = pd.DataFrame({"ts": [r["ts"] for r in c["rows"]], "dur": [r["dur"] for r in c["rows"]]})
+            out = merge_kernel_intervals(df.copy())
+            real = [[int(a), int(b)] for a, b in zip(out["ts"], out["end"])]
+            model = [[g["ts"], g["end"]] for g in c["groups"]]
+            if real != model:
+                drift.append((c["rows"], real, model))
+        ctx.replayed += len(cases)
+        ctx.extra_cov["merge_inputs_replayed"] = len(cases)
+        ctx.extra_cov["merge_model_drift"] = len(drift)
+        if drift:
+            print(f"SPEC-DRIFT {self.id}: merge_kernel_intervals and Intervals.tla disagree on {len(drift)} of {len(cases)} inputs; first: {drift[0]}")
+            ctx.notes.append(f"SPEC-DRIFT: {len(drift)} merge inputs differ between Intervals.tla and the code")
+
     def nontrivial(self, case, obs) -> bool:
         for rk in obs["ranks"]:
             acts = [(x["ts"], x["ts"] + x["dur"]) for x in rk["rows"] if x["stream"] != -1]
